@@ -89,6 +89,19 @@ class Workspace:
         self.close()
 
 
+def reset_logging():
+    """forget the logging configuration of earlier in-process servers: `logging.basicConfig` is a no-op once the root logger has a handler, so
+    without this only the first server of a process would ever open its log file (a fresh process per session is what users run)"""
+    import logging
+    for lg in (logging.root, logging.getLogger("fortls.langserver")):
+        for h in list(lg.handlers):
+            lg.removeHandler(h)
+            try:
+                h.close()
+            except Exception:
+                pass
+
+
 class Server:
     def __init__(self, args=None, nthreads=1):
         argv = list(args or [])
